@@ -281,6 +281,24 @@ def extract(tree):
         fns.append((m.group(1), "varop", m.group(4), int(m.group(2)), int(m.group(3))))
     for m in re.finditer(r"templatize_comparator\(\s*env\s*,\s*\w+\s*,\s*\"([^\"]+)\"\s*,\s*(\d)\s*,\s*(JOP_\w+)\s*,", cl):
         fns.append((m.group(1), "comparator", m.group(3), int(m.group(2)), 0))
+    # the loop shape of the two templates the model's varopFold / comparatorLoop mirror
+    def asm_array(name):
+        m = re.search(r"uint32_t\s+%s\s*\[\s*\]\s*=\s*\{" % name, cl)
+        if not m:
+            raise ExtractError("%s[] not found in corelib.c" % name)
+        i = cl.index("{", m.start())
+        return re.sub(r"\s+", "", cl[i + 1:csrc.match_brace(cl, i) - 1])
+    want_varop = ("SS(JOP_LENGTH,1,0),SSS(JOP_EQUALS_IMMEDIATE,2,1,0),SI(JOP_JUMP_IF_NOT,2,3),SI(JOP_LOAD_INTEGER,3,nullary),S(JOP_RETURN,3),"
+                  "SSI(JOP_EQUALS_IMMEDIATE,2,1,1),SI(JOP_JUMP_IF_NOT,2,5),SI(JOP_LOAD_INTEGER,3,unary),SSI(JOP_GET_INDEX,4,0,0),SSS(op,3,3,4),S(JOP_RETURN,3),"
+                  "SSI(JOP_GET_INDEX,3,0,0),SI(JOP_LOAD_INTEGER,5,1),SSS(JOP_IN,4,0,5),SSS(op,3,3,4),SSI(JOP_ADD_IMMEDIATE,5,5,1),SSI(JOP_EQUALS,2,5,1),"
+                  "SI(JOP_JUMP_IF_NOT,2,-4),S(JOP_RETURN,3)")
+    if asm_array("varop_asm") != want_varop:
+        raise ExtractError("templatize_varop: varop_asm[] changed (the model mirrors: unary = `unary op x`, n-ary = left fold)")
+    want_cmp = ("SS(JOP_LENGTH,1,0),SSS(JOP_LESS_THAN_IMMEDIATE,2,1,2),SI(JOP_JUMP_IF,2,10),SSI(JOP_GET_INDEX,3,0,0),SI(JOP_LOAD_INTEGER,5,1),"
+                "SSS(JOP_IN,4,0,5),SSS(op,2,3,4),SI(JOP_JUMP_IF_NOT,2,7),SSI(JOP_ADD_IMMEDIATE,5,5,1),SS(JOP_MOVE_NEAR,3,4),SSI(JOP_EQUALS,2,5,1),"
+                "SI(JOP_JUMP_IF_NOT,2,-6),S(invert?JOP_LOAD_FALSE:JOP_LOAD_TRUE,3),S(JOP_RETURN,3),S(invert?JOP_LOAD_TRUE:JOP_LOAD_FALSE,3),S(JOP_RETURN,3)")
+    if asm_array("comparator_asm") != want_cmp:
+        raise ExtractError("templatize_comparator: comparator_asm[] changed")
     if len(fns) != 19:
         raise ExtractError("expected 13 variadic operators + 6 comparators in corelib.c, found %d" % len(fns))
     g["coreFns"] = fns
